@@ -210,6 +210,9 @@ def check_spec(acc, spec, tier):
             acc.c["propagator_executions"] += o.stats.get("PROPAGATOR_FILTER_NB", 0)
             fam = spec["tag"].split(":")[0]
             kind = name.split("[")[0].split("(")[0]
+            if o.abort == "skipped":
+                acc.c["aborted_skipped"] += 1
+                break
             if o.abort:
                 acc.violation(f"{fam}:{SC.con_types(spec)}:{kind}:rewritten-model-aborts:{o.abort.split(':')[0]}",
                               SC.witness(spec, cfg, rewrite=name, rewritten=SC.short(s2), error=o.abort_detail),
